@@ -497,6 +497,10 @@ func runLinzCache(a *args, res *result) {
 			closedScenario(r, res, i)
 			continue
 		}
+		if i%64 == 21 && a.prop != "C06" && a.prop != "C09" {
+			longKeyStorm(r, res, i, pick(r, []string{"Cache", "CacheOf[string,any]"}))
+			continue
+		}
 		if i%12 == 5 {
 			vshim.SetVirtual(true)
 			vshim.SetVNow(epoch)
